@@ -58,6 +58,13 @@ class Method:
         self.attr = attr
 
 
+class SqrtOf:
+    """x ** 0.5 of a symbolic non-negative integer; int(SqrtOf(x)) is the integer square root (model in the contract)"""
+
+    def __init__(self, arg):
+        self.arg = arg
+
+
 class PartialVal:
     """functools.partial(f, *args, **kwargs)"""
 
@@ -229,7 +236,35 @@ class Prims:
         return [(st, d)]
 
     def e_JoinedStr(self, ex, node, st):
-        return [(st, Opaque("fstring", text=ex.src(node)))]
+        # f-strings over strings / non-negative integers become string terms; anything else stays opaque (messages)
+        parts = []
+        try:
+            for v in node.values:
+                if isinstance(v, ast.Constant):
+                    parts.append(str(v.value))
+                    continue
+                if v.format_spec is not None or v.conversion != -1:
+                    raise Unsupported("format spec")
+                val = self.eval1(ex, v.value, st)
+                if isinstance(val, bool) or not (isinstance(val, (int, str)) or (is_sym(val) and (z3.is_string(val) or isinstance(val, z3.ArithRef) and val.is_int()))):
+                    raise Unsupported("piece")
+                parts.append(val)
+        except Exception:  # messages may mention anything; they carry no meaning for the proof
+            return [(st, Opaque("fstring", text=ex.src(node)))]
+        if all(isinstance(p_, (int, str)) for p_ in parts):
+            return [(st, "".join(str(p_) for p_ in parts))]
+        terms = []
+        for p_ in parts:
+            if isinstance(p_, str):
+                terms.append(z3.StringVal(p_))
+            elif isinstance(p_, int):
+                terms.append(z3.StringVal(str(p_)))
+            elif z3.is_string(p_):
+                terms.append(p_)
+            else:
+                ex.oblige(st, p_ >= 0, ex._name("fstring", node), f"line {node.lineno}: integers formatted into names are non-negative (str(i) as a term)")
+                terms.append(z3.IntToStr(p_))
+        return [(st, z3.Concat(*terms) if len(terms) > 1 else terms[0])]
 
     def e_Lambda(self, ex, node, st):
         return [(st, Closure(node, dict(st.vars)))]
@@ -299,6 +334,28 @@ class Prims:
             for nm, val in sub.vars.items():  # bindings made by := inside the operand are visible afterwards
                 if st.vars.get(nm, None) is not val:
                     st.vars[nm] = val
+            if acc is None and not isinstance(v, (bool, z3.BoolRef, SSeq)):
+                # value semantics of `a or b` / `a and b` on non-boolean operands (the operand itself is the result)
+                t_ = v.truth if (hasattr(v, "truth") and not is_sym(v)) else ((v != 0) if isinstance(v, z3.ArithRef) else None)
+                if t_ is not None and is_sym(t_):
+                    ts = z3.simplify(t_)
+                    definite = True if z3.is_true(ts) else (False if z3.is_false(ts) else None)
+                    if definite is None and isinstance(v, z3.ArithRef):
+                        # decided by the path condition?  (e.g. a parameter required to be >= 2)
+                        if ex.solver.check(ex.axioms + sub.pc, t_, timeout_ms=2000, fallback=False)[0] == "unsat":
+                            definite = True
+                        elif ex.solver.check(ex.axioms + sub.pc, z3.Not(t_), timeout_ms=2000, fallback=False)[0] == "unsat":
+                            definite = False
+                    if definite is not None:
+                        if definite != is_and:  # `or` on a true operand / `and` on a false one: this operand is the result
+                            return [(st, v)]
+                        if i == len(node.values) - 1:
+                            return [(st, v)]
+                        continue
+                    if isinstance(v, z3.ArithRef) and not is_and and i == len(node.values) - 2:
+                        rest = self.eval1(ex, node.values[-1], st.fork())
+                        if isinstance(rest, (int, z3.ArithRef)) and not isinstance(rest, bool):
+                            return [(st, z3.If(t_, v, to_z3(rest)))]
             if hasattr(v, "truth") and not is_sym(v):
                 v = v.truth
             if not is_sym(v) and not isinstance(v, SSeq):
@@ -472,6 +529,10 @@ class Prims:
             return b.map(lambda y: f(to_z3(a), y))
         if is_sym(a) or is_sym(b):
             if isinstance(op, ast.Pow):
+                if isinstance(b, float) and b == 1.0:
+                    return a  # x ** 1.0 is x (as a float; callers convert back with int())
+                if isinstance(b, float) and b == 0.5:
+                    return SqrtOf(a)  # only int(.) of it is modelled (integer square root)
                 if isinstance(b, int) and not is_sym(b) and 0 <= b <= 4:
                     out = to_z3(1)
                     for _ in range(b):
@@ -696,6 +757,38 @@ class Prims:
     def e_ListComp(self, ex, node, st):
         r = self.comprehension(ex, node, st)
         return [(st, r if isinstance(r, (SSeq, Opaque)) else list(r))]
+
+    def e_DictComp(self, ex, node, st):
+        """{k: v for x in <concrete iterable>}: unrolled"""
+        if len(node.generators) != 1:
+            raise Unsupported("nested dict comprehension")
+        g = node.generators[0]
+        it = self.eval1(ex, g.iter, st)
+        if isinstance(it, dict):
+            it = list(it)
+        if type(it).__name__ == "ZipIter" and it.concrete_len() is not None:
+            it = it.concrete_items()
+        if not isinstance(it, (list, tuple, range)):
+            raise Unsupported("dict comprehension over a symbolic-length sequence")
+        out = {}
+        for item in it:
+            base = len(st.pc)
+            s = st.fork()
+            ex.assign(g.target, item, s)
+            ok = True
+            for cond in g.ifs:
+                c = self.eval1(ex, cond, s)
+                if is_sym(c):
+                    raise Unsupported("symbolic filter in a dict comprehension")
+                ok = ok and bool(c)
+            if ok:
+                kk = self.eval1(ex, node.key, s)
+                if is_sym(kk):
+                    raise Unsupported("symbolic key in a dict comprehension")
+                out[kk] = self.eval1(ex, node.value, s)
+            for f in s.pc[base:]:
+                st.assume(f)
+        return [(st, out)]
 
     def e_GeneratorExp(self, ex, node, st):
         r = self.comprehension(ex, node, st)
